@@ -325,6 +325,30 @@ func registerEnvStubs(e *Engine) {
 		writeTo(fr, handleOf(a[0]), ts)
 		return tuple{len(ts), iface{}}
 	}
+	bytesTerms := func(v value) []*smt.Term {
+		buf, _ := v.([]value)
+		ts := make([]*smt.Term, 0, len(buf))
+		for _, b := range buf {
+			ts = append(ts, termOf(b))
+		}
+		return ts
+	}
+	in["(*os.File).Write"] = func(fr *frame, a []value) value {
+		ts := bytesTerms(a[1])
+		writeTo(fr, handleOf(a[0]), ts)
+		return tuple{len(ts), iface{}}
+	}
+	// os.WriteFile = OpenFile(O_WRONLY|O_CREATE|O_TRUNC) + Write + Close
+	writeFile := func(fr *frame, a []value) value {
+		r := openFile(fr, mustStr(a[0], "WriteFile path"), oWRONLY|oCREATE|oTRUNC).(tuple)
+		if e := r[1].(iface); e.t != nil {
+			return e
+		}
+		writeTo(fr, handleOf(r[0]), bytesTerms(a[1]))
+		return iface{}
+	}
+	in["os.WriteFile"] = writeFile
+	in["io/ioutil.WriteFile"] = writeFile
 	in["(*os.File).Sync"] = func(fr *frame, a []value) value { return iface{} }
 	in["(*os.File).Close"] = func(fr *frame, a []value) value { return iface{} }
 	in["fmt.Println"] = func(fr *frame, a []value) value {
@@ -488,7 +512,16 @@ func registerEnvStubs(e *Engine) {
 		ps := fr.i.ps
 		ps.env().logs = append(ps.env().logs, "ld.Flatten")
 		if ps.flagDecide("flatten.err") {
-			return tuple{iface{}, errIface(fr.i, "stub: invalid local context")}
+			// the processor reports most problems as *ld.JsonLdError and a few (e.g. a scalar
+			// as the content of a named graph) as plain errors: the kind is the solver's choice
+			if ps.flagDecide("flatten.plain") {
+				return tuple{iface{}, errIface(fr.i, "stub: expected map or list to GenerateNodeMap")}
+			}
+			named := fr.i.eng.namedType(ldPkg, "JsonLdError")
+			st := zero(named).(structure)
+			st[0] = "invalid local context"
+			var cell value = st
+			return tuple{iface{}, iface{t: types.NewPointer(named), v: &cell}}
 		}
 		if g, ok := ps.store["flatten.result"]; ok {
 			return tuple{g, iface{}}
@@ -513,6 +546,8 @@ func registerEnvStubs(e *Engine) {
 		top.insert("@graph", iface{t: types.NewSlice(anyType), v: []value{iface{t: mt, v: node}}})
 		return tuple{iface{t: mt, v: top}, iface{}}
 	}
+	in["("+ldPkg+".JsonLdError).Error"] = func(fr *frame, a []value) value { return "stub: invalid local context" }
+	in["(*"+ldPkg+".JsonLdError).Error"] = func(fr *frame, a []value) value { return "stub: invalid local context" }
 	in["zz.SetFlattenResult"] = func(fr *frame, a []value) value {
 		fr.i.ps.store["flatten.result"] = a[0]
 		return nil
